@@ -91,10 +91,15 @@ type dim struct {
 }
 
 func dimsFor(format string) []dim {
-	ooxmlPaths := []string{"default", "twodigit", "nested", "renamed", "otherdir", "pct", "plus", "updir"}
+	// addressing classes of a relationship Target: relative (default ...), "../"-relative (updir), package-absolute inside
+	// the default folder (dimension target=abs), package-absolute OUTSIDE it (absoutside), names that need percent-encoding:
+	// space (pct), a literal '%' + two hex digits (pct25), a non-ASCII letter (utf8pct) — OPC keeps the escapes in the ZIP item name
+	ooxmlPaths := []string{"default", "twodigit", "nested", "renamed", "otherdir", "pct", "pct25", "utf8pct", "plus", "updir", "absoutside"}
 	decoys := []string{"none", "first", "mid", "last", "first+link", "mid+link", "last+link"}
 	absent := []string{"none", "first", "mid", "last"}
-	epubPaths := []string{"default", "twodigit", "nested", "renamed", "rootopf", "deepopf", "pct", "plus", "pctplus", "utf8", "updir"}
+	// manifest hrefs are relative IRI references (no package-absolute class): relative, nested, "../"-relative, and names that
+	// need percent-encoding: space (pct), '+' (plus / pctplus), a literal '%' + two hex digits (pct25), a non-ASCII letter (utf8)
+	epubPaths := []string{"default", "twodigit", "nested", "renamed", "rootopf", "deepopf", "pct", "pct25", "plus", "pctplus", "utf8", "updir"}
 	place := dim{"place", []string{"after", "before"}}            // part members after / before the infrastructure members
 	relorder := dim{"relorder", []string{"creation", "reversed"}} // order of <Relationship> / manifest <item> elements
 	// one declared part lacks the optional companion part that every other part has (pptx: notes slide + slide .rels;
@@ -298,9 +303,13 @@ func ooxmlPath(format, style string, num int) string {
 		return fmt.Sprintf("%s/content/%s%d.xml", top, stem, num)
 	case "pct":
 		return fmt.Sprintf("%s/%s%%20%d.xml", dir, stem, num) // OPC: the ZIP item name keeps the escape
+	case "pct25":
+		return fmt.Sprintf("%s/%s%%2541-%d.xml", dir, stem, num) // stands for "sheet%41-1.xml"; decoding it (once or twice) is wrong
+	case "utf8pct":
+		return fmt.Sprintf("%s/caf%%C3%%A9%d.xml", dir, num)
 	case "plus":
 		return fmt.Sprintf("%s/%s+%d.xml", dir, stem, num)
-	case "updir":
+	case "updir", "absoutside":
 		return fmt.Sprintf("%s%d/%s.xml", stem, num, stem) // outside xl/ resp. ppt/: Target "../sheet1/sheet.xml"
 	}
 	return fmt.Sprintf("%s/%s%d.xml", dir, stem, num)
@@ -322,6 +331,9 @@ func buildXLSX(s *spec) built {
 		sh := xsheet{Name: fmt.Sprintf("Tab %c", 'A'+k), SheetID: k + 1, RID: fmt.Sprintf("rId%d", k+1),
 			Path: ooxmlPath("xlsx", s.v["path"], s.slotNumber(s.name[k])), Head: "Head " + tok(k), Body: "Body " + tok(k), SST: s.n - k,
 			Absent: i == s.absentPos(), Blank: s.isBlank(i)}
+		if s.v["path"] == "absoutside" {
+			sh.Target = "/" + sh.Path
+		}
 		if s.hasCompanion(i) {
 			sh.Comment = "Note " + tok(k)
 		}
@@ -336,7 +348,18 @@ func buildXLSX(s *spec) built {
 	}
 	b.RelOrder = s.relOrder()
 	b.PartOrder = s.partOrder()
-	return built{data: pack(b.members(), "xl/workbook.xml"), ext: ".xlsx", expect: s.expected(), names: names}
+	ms := b.members()
+	var paths, present []string
+	for _, sh := range b.Sheets {
+		paths = append(paths, sh.Path)
+		if !sh.Absent { // a dangling reference has no "wrong resolution": what a reader tries for it is not constrained
+			present = append(present, sh.Path)
+		}
+	}
+	for _, name := range shadowNames(ms, paths, ooxmlShadows("xl", present, s.v["target"] == "abs")) {
+		ms = append(ms, zipw.M(name, b.sheetXML(xsheet{Head: "Head " + decoyTok, Body: "Body " + decoyTok, SST: 0})))
+	}
+	return built{data: pack(ms, "xl/workbook.xml"), ext: ".xlsx", expect: s.expected(), names: names}
 }
 
 func buildPPTX(s *spec) built {
@@ -357,6 +380,9 @@ func buildPPTX(s *spec) built {
 	for i, k := range s.decl {
 		sl := mk(k, s.name[k], fmt.Sprintf("rId%d", 11+k))
 		sl.SlideID = 256 + k // creation order: a moved slide keeps its id
+		if s.v["path"] == "absoutside" {
+			sl.Target = "/" + sl.Path
+		}
 		sl.Absent = i == s.absentPos()
 		switch {
 		case s.isBlank(i):
@@ -379,7 +405,18 @@ func buildPPTX(s *spec) built {
 	}
 	d.RelOrder = s.relOrder()
 	d.PartOrder = s.partOrder()
-	return built{data: pack(d.Members(), "ppt/presentation.xml"), ext: ".pptx", expect: s.expected(), notes: notes}
+	ms := d.Members()
+	var paths, present []string
+	for _, sl := range d.Slides {
+		paths = append(paths, sl.Path)
+		if !sl.Absent {
+			present = append(present, sl.Path)
+		}
+	}
+	for _, name := range shadowNames(ms, paths, ooxmlShadows("ppt", present, s.v["target"] == "abs")) {
+		ms = append(ms, zipw.M(name, pptxw.SlideXML(pptxw.Slide{Title: "Head " + decoyTok, Paras: []pptxw.Para{{Text: "Body " + decoyTok}}})))
+	}
+	return built{data: pack(ms, "ppt/presentation.xml"), ext: ".pptx", expect: s.expected(), notes: notes}
 }
 
 func epubHref(style string, num int) (opf, href string) {
@@ -395,6 +432,8 @@ func epubHref(style string, num int) (opf, href string) {
 		opf, href = "a/b/c/pkg.opf", fmt.Sprintf("x/ch%d.xhtml", num)
 	case "pct":
 		href = fmt.Sprintf("ch%%20%d.xhtml", num) // member "ch 1.xhtml"
+	case "pct25":
+		href = fmt.Sprintf("part%%2541-%d.xhtml", num) // member "part%41-1.xhtml" (decoded exactly once)
 	case "plus":
 		href = fmt.Sprintf("ch+%d.xhtml", num) // '+' is a literal plus in a path
 	case "pctplus":
@@ -450,7 +489,18 @@ func buildEPUB(s *spec) built {
 		exp = append([]int{-1}, exp...)
 		names = append([]string{epubw.Resolve(b.OPFPath, "nav.xhtml")}, names...)
 	}
-	return built{data: pack(b.Members(), b.OPFPath), ext: ".epub", expect: exp, names: names}
+	ms := b.Members()
+	var hrefs, right []string
+	for _, c := range b.Chapters {
+		if !c.Absent {
+			hrefs = append(hrefs, c.Href)
+		}
+		right = append(right, epubw.Resolve(b.OPFPath, c.Href))
+	}
+	for _, name := range shadowNames(ms, right, epubShadows(b.OPFPath, hrefs)) {
+		ms = append(ms, zipw.M(name, epubw.ChapterXHTML(epubw.Chapter{Title: "Head " + decoyTok, Body: "<p>Body " + decoyTok + "</p>"})))
+	}
+	return built{data: pack(ms, b.OPFPath), ext: ".epub", expect: exp, names: names}
 }
 
 // pack serializes the members. Only the members that carry tokens (the parts) and the main part are
@@ -463,6 +513,76 @@ func pack(ms []zipw.Member, mainPart string) []byte {
 		}
 	}
 	return zipw.Zip(ms)
+}
+
+// ---- shadow decoys: members at the locations a WRONG resolution of the declared references would produce --------------
+//
+// They are not referenced from anywhere, carry the decoy token and are present in every package (default style
+// included), so that a reader that resolves a reference wrongly shows foreign text instead of merely losing a part.
+
+// pctDecodeOnce decodes %XX escapes once (nothing else).
+func pctDecodeOnce(s string) string { return epubw.PctDecode(s) }
+
+// ooxmlShadows: wrong resolutions of relationship Targets of the parts (ZIP names) below the main part's folder top.
+func ooxmlShadows(top string, parts []string, absTargets bool) []string {
+	var out []string
+	for _, p := range parts {
+		if strings.HasPrefix(p, top+"/") {
+			out = append(out, strings.TrimPrefix(p, top+"/")) // resolved against the package root instead of the source part
+			if absTargets {
+				out = append(out, top+"/"+p) // package-absolute target re-rooted below the folder of the source part
+			}
+		} else {
+			out = append(out, top+"/"+p) // "../" dropped, or an absolute target outside the folder re-rooted below it
+		}
+		if d := pctDecodeOnce(p); d != p { // OPC: the escapes are part of the ZIP item name, decoding is wrong
+			out = append(out, d)
+			if dd := pctDecodeOnce(d); dd != d {
+				out = append(out, dd)
+			}
+		}
+		if strings.Contains(p, "+") {
+			out = append(out, strings.ReplaceAll(p, "+", " ")) // form-decoding
+		}
+	}
+	return out
+}
+
+// epubShadows: wrong resolutions of manifest hrefs (as written) relative to the OPF.
+func epubShadows(opf string, hrefs []string) []string {
+	dir := path.Dir(opf)
+	var out []string
+	for _, h := range hrefs {
+		right := epubw.Resolve(opf, h)
+		out = append(out,
+			epubw.Resolve("x.opf", h),           // resolved against the container root instead of the OPF
+			path.Join(dir, h),                   // not percent-decoded
+			pctDecodeOnce(right),                // decoded twice
+			strings.ReplaceAll(right, "+", " "), // form-decoding of a literal plus
+			path.Join(dir, strings.ReplaceAll(pctDecodeOnce(h), "../", "")), // "../" dropped
+		)
+	}
+	return out
+}
+
+// shadowNames filters the candidates: no duplicates, nothing that is a real member of the package.
+func shadowNames(ms []zipw.Member, right []string, cands []string) []string {
+	have := map[string]bool{}
+	for _, m := range ms {
+		have[m.Name] = true
+	}
+	for _, r := range right { // the correct location of a declared part stays free even when the part is absent
+		have[r] = true
+	}
+	var out []string
+	for _, c := range cands {
+		if c == "" || have[c] || strings.HasPrefix(c, "../") {
+			continue
+		}
+		have[c] = true
+		out = append(out, c)
+	}
+	return out
 }
 
 // ---- observation ----------------------------------------------------------------------------------
@@ -731,13 +851,13 @@ func observe(s *spec, b built, file string) (j *judge, openErr error) {
 func run(e *harness.Env) {
 	e.Rule = "per format (xlsx, pptx, epub2, epub3): every triple (declared order, file-name order, ZIP member order) of permutations of N parts " +
 		"(N=3: 216 triples, N=4: 13824) x packaging variants = every assignment of {part path style, Target spelling, optional parts, decoy part, absent declared part, " +
-		"one blank part (every position), one part without the optional companion part the others have (every position), " +
+		"every package also holds unreferenced shadow members (decoy token) at the locations wrong resolutions of its references would produce; one blank part (every position), one part without the optional companion part the others have (every position), " +
 		"relationship/manifest element order, members before/after infrastructure} with at most B non-default values " +
 		"(quick: N=3,B=1; thorough: N=3,B=2 and N=4,B=1 restricted to path/decoy/companion/blank/absent). distinct = distinct descriptors; non-trivial = any permutation differs from creation order or any variant value is non-default"
 	e.Assumptions = []string{
 		"archive/zip writes the members in the order given (Go standard library)",
 		"the writers pptxw / epubw / the private XLSX writer emit packages that are valid for OPC / ECMA-376 / EPUB OCF+OPF (structure reviewed against the specifications; the logical input is the oracle)",
-		"a declared part whose file is absent makes the package defective: refusing the file is accepted, opening it must skip exactly that part",
+		"a declared part whose file is absent makes the package defective: refusing the file is accepted, opening it must skip exactly that part; no shadow member is planted for a dangling reference (what a lenient reader tries for it is not constrained by the statement)",
 	}
 	dir := harness.Scratch()
 	defer os.RemoveAll(dir)
